@@ -101,6 +101,7 @@ func vfH_C12_expand(tier int) {
 	shapes := []shape{
 		{"*", ""}, {"*::field", ""}, {"*::tag", ""}, {"/a/", ""}, {"b, *", ""}, {"*", " GROUP BY t"}, {"*", " GROUP BY *"}, {"a", " GROUP BY *"},
 		{"mean(*)", ""}, {"count(*)", ""}, {"max(/a|b/)", ""}, {"a, b", ""}, {"*", " GROUP BY /t/"}, {"holt_winters(*, 1, 2)", ""},
+		{"cumulative_sum(count(*))", ""}, {"count(mean(*))", ""}, {"difference(max(/a|b/))", ""}, {"derivative(holt_winters(*, 1, 2))", ""},
 	}
 	sh := shapes[vfChoice(len(shapes))]
 	text := "SELECT " + sh.fields + " FROM " + src + sh.groupBy
@@ -167,12 +168,17 @@ func vfH_C12_expand(tier int) {
 			want = append(want, &Field{Expr: &VarRef{Val: c.name, Type: c.typ}})
 		}
 	}
+	outer := "" // nested calls: the innermost call decides the types, the outermost the column name
 	callStar := func(name string, match func(string) bool, allowed func(DataType) bool, extra []Expr) {
 		for _, c := range cols {
 			if c.typ == Tag || !allowed(c.typ) || !match(c.name) {
 				continue
 			}
 			args := append([]Expr{&VarRef{Val: c.name, Type: c.typ}}, extra...)
+			if outer != "" {
+				want = append(want, &Field{Expr: &Call{Name: outer, Args: []Expr{&Call{Name: name, Args: args}}}, Alias: outer + "_" + c.name})
+				continue
+			}
 			want = append(want, &Field{Expr: &Call{Name: name, Args: args}, Alias: name + "_" + c.name})
 		}
 	}
@@ -214,6 +220,18 @@ func vfH_C12_expand(tier int) {
 		callStar("count", any, func(t DataType) bool { return numeric(t) || t == String || t == Boolean }, nil)
 	case "max(/a|b/)":
 		callStar("max", any, func(t DataType) bool { return numeric(t) || t == Boolean }, nil)
+	case "cumulative_sum(count(*))":
+		outer = "cumulative_sum"
+		callStar("count", any, func(t DataType) bool { return numeric(t) || t == String || t == Boolean }, nil)
+	case "count(mean(*))":
+		outer = "count"
+		callStar("mean", any, numeric, nil)
+	case "difference(max(/a|b/))":
+		outer = "difference"
+		callStar("max", any, func(t DataType) bool { return numeric(t) || t == Boolean }, nil)
+	case "derivative(holt_winters(*, 1, 2))":
+		outer = "derivative"
+		callStar("holt_winters", any, func(t DataType) bool { return t == Float || t == Integer }, []Expr{&IntegerLiteral{Val: 1}, &IntegerLiteral{Val: 2}})
 	case "holt_winters(*, 1, 2)":
 		callStar("holt_winters", any, func(t DataType) bool { return t == Float || t == Integer }, []Expr{&IntegerLiteral{Val: 1}, &IntegerLiteral{Val: 2}})
 	}
